@@ -19,7 +19,7 @@ LEVEL_NOTE = ("Trusted: Coq kernel, extraction, driver.ml, harness, numpy/scipy 
               "the kernels' output (scipy) is observed, not proved; the composite 1/x*rect generator is checked as a black box.")
 RULE = ("generators cos, sin, 1/x, 1/x*rect, sign, threshold, phase-estimation, rect, linear amplification, Gibbs, eigenstate filter, "
         "ReLU, softplus; degrees 1..60 in Chebyshev mode, <= 24 in monomial mode (quick: 3 per generator), shape parameters from their "
-        "documented ranges, all combinations of ensure_bounded / return_scale / chebyshev_basis, plus wrong-parity degrees; distinct "
+        "documented ranges, all combinations of ensure_bounded / return_scale / chebyshev_basis, plus wrong-parity degrees (incl. the lowest one, 1 or 2) and degrees given as floats (the command line form); distinct "
         "by JSON; non-trivial = degree >= 2")
 TRUSTED = ["Coq 8.16.1 kernel", "extraction (ExtrOcamlBasic, ExtrOcamlZBigInt) + driver.ml + zarith", "harness (impl_runner.py, impl_handlers5.py)",
            "numpy/scipy as executors of the implementation"]
@@ -72,6 +72,19 @@ def run(ctx):
                         a = dict(G.shape_args(rng, name), degree=d)
                         cases.append({"fn": "gen", "name": name, "args": G.enc_args(a), "ensure_bounded": eb, "return_scale": rs,
                                       "chebyshev_basis": cheb, "timeout": 300, "expect": "refuse"})
+                # the lowest wrong-parity degree (1 for the even generators, 2 for the odd ones), as int and in the command line's float form
+                for fl in (False, True):
+                    cheb, eb, rs = rng.random() < 0.5, rng.random() < 0.5, rng.random() < 0.5
+                    a = dict(G.shape_args(rng, name), degree=2 if name in G.ODD else 1)
+                    cases.append({"fn": "gen", "name": name, "args": G.enc_args(a), "ensure_bounded": eb, "return_scale": rs,
+                                  "chebyshev_basis": cheb, "timeout": 300, "expect": "refuse", "float_degree": fl})
+            if name in G.ERF or name == "invrect":
+                # a valid degree given as a float (20.0), which is what `pyqsp --polyargs 20,0.2,0.9 --polyname efilter poly` passes
+                for cheb in (True, False):
+                    deg = G.right_parity_degree(rng, name, 2, 20) if name != "invrect" else rng.choice([4, 6, 8])
+                    a = dict(G.shape_args(rng, name), degree=deg) if name != "invrect" else {"degree": deg, "delta": 2.0, "kappa": 3, "epsilon": 0.1}
+                    cases.append({"fn": "gen", "name": name, "args": G.enc_args(a), "ensure_bounded": rng.random() < 0.7, "return_scale": rng.random() < 0.5,
+                                  "chebyshev_basis": cheb, "timeout": 300, "expect": "ok", "float_degree": True})
     impl = run_impl(cases, timeout=3000)
     lines, keep = [], []
     for c, r in zip(cases, impl):
